@@ -172,7 +172,7 @@ def _static_or(vals_iter, statics, m, vals):
     out = []
     it = iter(vals_iter)
     for s in statics:
-        if s == DYN:
+        if s == memref.DYNAMIC_INDEX:
             out.append(m.get(vals, next(it)))
         else:
             out.append(s)
@@ -186,7 +186,7 @@ def memref_numel(t: MemRefType, dyn=()):
     n = 1
     it = iter(dyn)
     for d in t.get_shape():
-        n *= next(it) if d == -1 else d
+        n *= next(it) if d in (-1, memref.DYNAMIC_INDEX) else d
     return n
 
 
@@ -208,7 +208,7 @@ def _alloc(m: BufferMachine, op, vals, core):
     sizes = []
     it = iter(dyn)
     for d in t.get_shape():
-        sizes.append(next(it) if d == -1 else d)
+        sizes.append(next(it) if d in (-1, memref.DYNAMIC_INDEX) else d)
     if b is None:
         site = op.attributes.get("vsite")
         site = site.value.data if site is not None else len(m.alloc_names)
